@@ -35,7 +35,7 @@ var simple *core.Simple
 func init() {
 	simple = &core.Simple{
 		Id: "C07", Lvl: "exploration", Quick: 2100, Thorough: 80000, PerBatch: 350, Width: 175, Timeout: 2400,
-		RuleText: "each case builds a sandbox S/l1/l2/l3/l4/root with uniquely named canary files and directories at every level (including .info_root, .rsrc_root and root.incomplete next to the root, and canaries next to the accounts directory), then sends one file-touching or account request (24 kinds incl. two-step account sequences on a hostile existing login, the actual transfer for downloads/uploads and folder-upload item headers on the transfer connection) whose name / path items / new name / destination / item header / login carries a hostile component ('..', '.', '/', empty, absolute, a/../../b, NUL, 255-byte and longer, high bytes, more '..' than the sandbox is deep, count/length prefixes that disagree with the data, names aiming at a canary); oracle: the recursive snapshot (names, types, sizes, hashes, link targets) of everything outside the root (outside Users/ for account requests) is unchanged, no link inside the root points outside, and no canary token appears in any reply or transfer byte. distinct = (request kind, hostile class, placement); non-trivial = every case",
+		RuleText: "each case builds a sandbox S/l1/l2/l3/l4/root with uniquely named canary files and directories at every level (including .info_root, .rsrc_root and root.incomplete next to the root, and canaries next to the accounts directory), then — as a client of the server-wide root or, in a third of the cases, of an account with its own file root next to it — sends one file-touching or account request (24 kinds incl. two-step account sequences on a hostile existing login, the actual transfer for downloads/uploads and folder-upload item headers on the transfer connection) whose name / path items / new name / destination / item header / login carries a hostile component ('..', '.', '/', empty, absolute, a/../../b, NUL, 255-byte and longer, high bytes, more '..' than the sandbox is deep, count/length prefixes that disagree with the data, names aiming at a canary); oracle: the recursive snapshot (names, types, sizes, hashes, link targets) of everything outside the root (outside Users/ for account requests) is unchanged, no link inside the root points outside, and no canary token appears in any reply or transfer byte. distinct = (request kind, hostile class, placement); non-trivial = every case",
 		Case: runCase,
 		Extra: func(tier string, seed int64) []core.Batch {
 			n := 170
@@ -123,6 +123,7 @@ type sandbox struct {
 	tokens  []string
 	canary  string // name of the canary file one level above the root
 	cfgCanary string // base name (without .yaml) of the canary file next to the accounts directory
+	zoneRoot  string // the client's file root (its account's own root, or the server-wide one)
 }
 
 func build(r *core.Rand) (*sandbox, error) {
@@ -189,11 +190,31 @@ func runCase(c *core.Case) {
 	}
 	srv := sb.srv
 	defer srv.Close()
-	cl, err := refclient.LoginAs(srv, "10.7.0.1:1", "admin", "", "Intruder")
+	// in a third of the cases the client's account has its OWN file root (a sibling of the server-wide root):
+	// then that directory is "the client's file root" and the server-wide root is outside of it
+	zoneRoot := srv.FileRoot
+	account := "admin"
+	if c.Index%3 == 1 {
+		own := filepath.Join(filepath.Dir(srv.FileRoot), "acctroot")
+		fixture.WriteFile(own+"/file.txt", "inside-file")
+		fixture.WriteFile(own+"/dir/inner.txt", "inside-inner")
+		fixture.WriteFile(own+"/dir/sub/deep.txt", "inside-deep")
+		os.MkdirAll(own+"/Uploads", 0755)
+		os.MkdirAll(own+"/Docs", 0755)
+		if acc := srv.S.AccountManager.Get("admin"); acc != nil {
+			scoped := *acc
+			scoped.Login, scoped.Name, scoped.FileRoot = "scoped", "Scoped", own
+			if err := srv.S.AccountManager.Create(scoped); err == nil {
+				account, zoneRoot = "scoped", own
+			}
+		}
+	}
+	cl, err := refclient.LoginAs(srv, "10.7.0.1:1", account, "", "Intruder")
 	if err != nil {
 		c.Unsure("login: %v", err)
 		return
 	}
+	sb.zoneRoot = zoneRoot
 	hs := hostiles(r, sb.canary, sb.cfgCanary)
 	hp := hostilePaths(r, sb.canary)
 	// every (request kind, hostile class) pair is enumerated across the cases of a run; the rest is drawn from the seed
@@ -375,7 +396,7 @@ func runCase(c *core.Case) {
 		auditMark("E", sb, accountZone)
 	}
 	after := fixture.Snapshot(srv.Dir)
-	rootRel, _ := filepath.Rel(srv.Dir, srv.FileRoot)
+	rootRel, _ := filepath.Rel(srv.Dir, zoneRoot)
 	usersRel := filepath.Join("config", "Users")
 	inZone := func(path string) bool {
 		if accountZone {
@@ -404,7 +425,7 @@ func runCase(c *core.Case) {
 			if !filepath.IsAbs(target) {
 				target = filepath.Join(filepath.Dir(filepath.Join(srv.Dir, path)), target)
 			}
-			rel, err := filepath.Rel(srv.FileRoot, filepath.Clean(target))
+			rel, err := filepath.Rel(zoneRoot, filepath.Clean(target))
 			if err != nil || rel == ".." || strings.HasPrefix(rel, "../") {
 				c.Fail("C07/"+kind+"/link-outside/"+placement, "%s created link %s -> %s which points outside the file root", desc, path, v)
 			}
@@ -437,7 +458,7 @@ func AuditChild(n int, seed int64, tier string) int {
 	em, _ := core.NewEmitter("")
 	idx := 0
 	auditMark = func(tag string, sb *sandbox, accountZone bool) {
-		zone := sb.srv.FileRoot
+		zone := sb.zoneRoot
 		if accountZone {
 			zone = filepath.Join(sb.srv.ConfigDir, "Users")
 		}
